@@ -458,7 +458,7 @@ mod tests {
         MetadataProvider,
     };
 
-    use read_fonts::{types::BoundingBox, FontRef};
+    use read_fonts::{types::BoundingBox, FontRef, TableProvider};
 
     use super::{Brush, ColorPainter, CompositeMode, GlyphId, Transform};
     use crate::color::traversal_tests::test_glyph_defs::{COLORED_CIRCLES_V0, COLORED_CIRCLES_V1};
@@ -519,6 +519,34 @@ mod tests {
             .paint(LocationRef::default(), &mut color_painter);
         // Expected to fail with an error as the glyph contains a paint cycle.
         assert!(result.is_err());
+    }
+
+    /// A variable paint whose VarIndexBase is just below u32::MAX: the indices of
+    /// its later deltas are past the end of the delta set index map. Painting at a
+    /// non-default location must not overflow computing them.
+    #[test]
+    fn var_index_base_near_u32_max() {
+        use read_fonts::types::F2Dot14;
+        let mut data = font_test_data::COLRV0V1_VARIABLE.to_vec();
+        // A PaintVarSweepGradient (format 9) and its VarIndexBase field.
+        const PAINT_OFFSET: usize = 20755;
+        const VAR_INDEX_BASE_OFFSET: usize = PAINT_OFFSET + 12;
+        assert_eq!(data[PAINT_OFFSET], 9);
+        data[VAR_INDEX_BASE_OFFSET..VAR_INDEX_BASE_OFFSET + 4]
+            .copy_from_slice(&0xFFFF_FFFEu32.to_be_bytes());
+        let font = FontRef::new(&data).unwrap();
+        let coords = [F2Dot14::from_f32(-1.0); 8];
+        let location = LocationRef::new(&coords);
+        let num_glyphs = font.maxp().unwrap().num_glyphs() as u32;
+        let mut painted = 0;
+        for gid in 0..num_glyphs {
+            if let Some(glyph) = font.color_glyphs().get(GlyphId::new(gid)) {
+                let _ = glyph.paint(location, &mut DummyColorPainter::new());
+                let _ = glyph.bounding_box(location, Size::unscaled());
+                painted += 1;
+            }
+        }
+        assert!(painted > 0);
     }
 
     #[test]
